@@ -14,7 +14,8 @@ EXTENDS CypherWrite, Json
 CONSTANTS Mode, MaxHist,
           UseKF,        \* deviation actions also taken by Next (self-test / witness search)
           ListLen,      \* C05: UNWIND lists of length 1..ListLen
-          Rich          \* C04/C05: larger alphabets (thorough tier)
+          Rich,         \* C04/C05: larger alphabets (thorough tier)
+          Sim           \* TRUE under -simulate: a walk that reached MaxHist statements prints itself
 
 VARIABLES hist, last, phase
 vars == <<G, hist, last, phase>>
@@ -158,6 +159,10 @@ NewNodesPerRow(w) == CASE w.kind = "create" -> 1
 Fits(st, rows) == /\ Cardinality(LiveN(G)) + NewNodesPerRow(st.w) * Len(rows) <= MaxN
                   /\ Cardinality(LiveE(G)) + (IF st.w.kind = "createrel" THEN Len(rows) ELSE 0) <= MaxE
 
+\* every order of the matched rows while there are few of them; beyond that one order (the row orders multiply the
+\* successors without reaching new graphs; the trace specification still accepts every order)
+GenTables(src) == IF Cardinality(RowSet(G, src)) <= 3 THEN RowTables(G, src) ELSE {SetToSortSeq(RowSet(G, src), RowLess)}
+
 DoStmt ==
     /\ Len(hist) < MaxHist             \* (a guard rather than a CONSTRAINT: nothing is computed beyond the bound)
     /\ \E st \in Candidates :
@@ -167,14 +172,23 @@ DoStmt ==
            THEN LET err == HasDuplicate(G, st.label, st.key) IN
                 /\ CreateConstraint(st, err, IF err THEN G ELSE [G EXCEPT !.cons = @ \cup {ConsName(st.label, st.key)}])
                 /\ last' = [err |-> err, st |-> st]
-           ELSE \E rows \in RowTables(G, st.src) :
+           ELSE \E rows \in GenTables(st.src) :
                     /\ Fits(st, rows)
                     /\ LET r == Exec(G, st, rows) IN
                        \/ StmtR(r, r.err, IF r.err THEN G ELSE r.g) /\ last' = [err |-> r.err, st |-> st]
                        \/ /\ "KF_C05_RowByRowApply" \in UseKF
                           /\ KF_C05_RowByRowApplyR(r, TRUE, r.g) /\ last' = [err |-> TRUE, st |-> st]
 
-Next == DoStmt
+\* -simulate evaluates invariants on EVERY candidate successor, so an emitting invariant prints mostly states that are
+\* not on the walk; this step is taken from the state the walk really reached and prints its history exactly once
+\* (run with -depth MaxHist + 2)
+DoFinishWalk ==
+    /\ Sim /\ Len(hist) = MaxHist /\ phase # 9
+    /\ PrintT(<<"SCRIPT", ToJson(hist)>>)
+    /\ phase' = 9
+    /\ UNCHANGED <<G, hist, last>>
+
+Next == DoStmt \/ DoFinishWalk
 Spec == Init /\ [][Next]_vars
 
 View == <<G, phase>>
@@ -183,7 +197,6 @@ Emit == PrintT(<<"SCRIPT", ToJson(hist')>>)
 \* C05: only histories that end with the multi-row statement are worth replaying
 EmitFaulty == phase' = 1 => PrintT(<<"SCRIPT", ToJson(hist')>>)
 EmitLeaf == Len(hist') = MaxHist => PrintT(<<"SCRIPT", ToJson(hist')>>)
-SimEmit == Len(hist) = MaxHist => PrintT(<<"SCRIPT", ToJson(hist)>>)
 
 \* ------------------------------------------------------------------ design-level action properties
 \* C05: a statement that reports an error changes nothing
